@@ -1,3 +1,5 @@
+//go:build go1.23
+
 package result
 
 // C12, beacon DKG result signing: the result signing state (phase 13) is fed
